@@ -82,13 +82,45 @@ def pairsOrig (reps : List (Line × Line)) (ls : List Line) : List (Char × Line
 
 def isDigit (c : Char) : Bool := '0' ≤ c && c ≤ '9'
 
-/-- the text up to the first period that is followed by white space; `none` if there is none -/
-def untilPeriod : Line → Option (Line × Line)
+def isQuote (c : Char) : Bool := c == '\'' || c == '"'
+
+/-- `'[^']*'` (resp. `"[^"]*"`) after the opening quote `q`: the literal's body and what follows its closing quote -/
+def closeQuote (q : Char) : Line → Option (Line × Line)
   | [] => none
-  | '.' :: c :: rest =>
+  | c :: rest => if c == q then some ([], rest) else (closeQuote q rest).map fun p => (c :: p.1, p.2)
+
+theorem closeQuote_shorter (q : Char) : ∀ (l : Line) (b a : Line), closeQuote q l = some (b, a) → a.length < l.length
+  | [], _, _, h => by simp [closeQuote] at h
+  | c :: rest, b, a, h => by
+    unfold closeQuote at h
+    split at h
+    · simp at h; obtain ⟨_, rfl⟩ := h; simp
+    · cases hr : closeQuote q rest with
+      | none => simp [hr] at h
+      | some p =>
+        simp [hr] at h
+        obtain ⟨_, rfl⟩ := h
+        have := closeQuote_shorter q rest p.1 p.2 (by rw [hr])
+        simp; omega
+
+/-- the clauses of an entry: the text up to the first period followed by white space that is not inside a quoted literal
+(`(?>'[^']*'|"[^"]*"|.)*?\.\s`: a quote that is closed later in the text starts a literal, which is skipped as a whole -- an
+atomic group, the scanner never re-enters it; a quote that is never closed is an ordinary character); `none` if there is none.
+Fuel = length of the text. -/
+def untilPeriodGo : Nat → Line → Option (Line × Line)
+  | 0, _ => none
+  | _, [] => none
+  | fuel + 1, '.' :: c :: rest =>
     if isWs c then some ([], rest)
-    else (untilPeriod (c :: rest)).map fun p => ('.' :: p.1, p.2)
-  | c :: rest => (untilPeriod rest).map fun p => (c :: p.1, p.2)
+    else (untilPeriodGo fuel (c :: rest)).map fun p => ('.' :: p.1, p.2)
+  | fuel + 1, c :: rest =>
+    if isQuote c then
+      match closeQuote c rest with
+      | some (lit, after) => (untilPeriodGo fuel after).map fun p => (c :: lit ++ c :: p.1, p.2)
+      | none => (untilPeriodGo fuel rest).map fun p => (c :: p.1, p.2)
+    else (untilPeriodGo fuel rest).map fun p => (c :: p.1, p.2)
+
+def untilPeriod (l : Line) : Option (Line × Line) := untilPeriodGo (l.length + 1) l
 
 /-- one `finditer` attempt at the head of the text -/
 def sentenceAt (s : Line) : Option ((Line × Line) × Line) :=
